@@ -19,6 +19,12 @@ import (
 
 // itemField: v is a load of <item>.<field> for a *stackItem value.
 func itemField(v ssa.Value) (item ssa.Value, field string, ok bool) {
+	if f, isF := v.(*ssa.Field); isF && isNamed(f.X.Type(), modRoot+"/ast", "stackItem") {
+		// an item held by value (a stack of stackItem, not *stackItem)
+		if st, isS := f.X.Type().Underlying().(*types.Struct); isS && f.Field < st.NumFields() {
+			return f.X, st.Field(f.Field).Name(), true
+		}
+	}
 	ld, isL := isLoad(v)
 	if !isL {
 		return nil, "", false
@@ -28,6 +34,45 @@ func itemField(v ssa.Value) (item ssa.Value, field string, ok bool) {
 		return nil, "", false
 	}
 	return fa.X, fieldAddrName(fa), true
+}
+
+// stackItemLits: the stackItem literals built in fn, as field -> value: an allocated literal (&stackItem{…}, or a value
+// literal spilled to a local) and one written in place into the element of a slice/array literal ([]stackItem{{…}}).
+func stackItemLits(fn *ssa.Function) []map[string]ssa.Value {
+	var out []map[string]ssa.Value
+	for _, b := range fn.Blocks {
+		for _, in := range b.Instrs {
+			switch x := in.(type) {
+			case *ssa.Alloc:
+				if isNamed(x.Type(), modRoot+"/ast", "stackItem") {
+					if fs := allocFieldStores(x); len(fs) > 0 {
+						out = append(out, fs)
+					}
+				}
+			case *ssa.IndexAddr:
+				if !isNamed(x.Type(), modRoot+"/ast", "stackItem") {
+					continue
+				}
+				if _, isPtrElem := x.Type().(*types.Pointer).Elem().(*types.Pointer); isPtrElem {
+					continue // an element of a stack of pointers
+				}
+				fs := map[string]ssa.Value{}
+				for _, u := range referrers(x) {
+					if fa, ok := u.(*ssa.FieldAddr); ok {
+						for _, fu := range referrers(fa) {
+							if st, ok := fu.(*ssa.Store); ok && st.Addr == ssa.Value(fa) {
+								fs[fieldAddrName(fa)] = st.Val
+							}
+						}
+					}
+				}
+				if len(fs) > 0 {
+					out = append(out, fs)
+				}
+			}
+		}
+	}
+	return out
 }
 
 func ruleC17R2(w *World, r *Report) {
@@ -108,6 +153,31 @@ func ruleC17R2(w *World, r *Report) {
 							rest = ex
 						}
 					}
+				}
+			}
+		}
+	}
+	if popped != nil {
+		// an item held by value and kept in a local (`last := stack[len(stack)-1]` on a []stackItem): its fields are read
+		// from that local, which nothing else is assigned to
+		if _, isStruct := popped.Type().Underlying().(*types.Struct); isStruct {
+			for _, u := range referrers(popped) {
+				st, ok := u.(*ssa.Store)
+				if !ok || st.Val != popped {
+					continue
+				}
+				al, ok := st.Addr.(*ssa.Alloc)
+				if !ok {
+					continue
+				}
+				whole := 0
+				for _, au := range referrers(al) {
+					if s2, ok := au.(*ssa.Store); ok && s2.Addr == ssa.Value(al) {
+						whole++
+					}
+				}
+				if whole == 1 {
+					popped = al
 				}
 			}
 		}
@@ -216,12 +286,10 @@ func ruleC17R2(w *World, r *Report) {
 			// the push loop
 			for _, sf := range scanFns {
 				for _, b := range sf.Blocks {
-					for _, in := range b.Instrs {
-						al, ok := in.(*ssa.Alloc)
-						if !ok || !isNamed(al.Type(), modRoot+"/ast", "stackItem") {
-							continue
-						}
-						fs := allocFieldStores(al)
+					if b.Index != 0 {
+						continue
+					}
+					for _, fs := range stackItemLits(sf) {
 						nv, vv := fs["node"], fs["visitor"]
 						ld, isL := isLoad(nv)
 						ic, isC := vv.(*ssa.Call)
@@ -304,14 +372,9 @@ func ruleC17R2(w *World, r *Report) {
 			continue
 		}
 		seed := false
-		for _, b := range f.Blocks {
-			for _, in := range b.Instrs {
-				if al, ok := in.(*ssa.Alloc); ok && isNamed(al.Type(), modRoot+"/ast", "stackItem") {
-					fs := allocFieldStores(al)
-					if fs["visitor"] != nil && (fs["node"] != nil || fs["nodes"] != nil) {
-						seed = true
-					}
-				}
+		for _, fs := range stackItemLits(f) {
+			if fs["visitor"] != nil && (fs["node"] != nil || fs["nodes"] != nil) {
+				seed = true
 			}
 		}
 		if seed {
